@@ -22,6 +22,9 @@ Check(rec) ==
               LET a == rec.steps[i][2]  b == rec.steps[i][3] IN
               IF a[1] /\ b[1] /\ SpellFFFD(b[2]) = a[2] THEN <<"C09", "fffd-spelling", rec.steps[i][1]>>
               ELSE IF a[1] /\ b[1] /\ rec.kind = "encoder" /\ SpellJS(a[2]) = SpellJS(b[2]) THEN <<"C09", "js-separator-spelling", rec.steps[i][1]>>
+              \* both recorded spelling differences in one output
+              ELSE IF a[1] /\ b[1] /\ rec.kind = "encoder" /\ SpellJS(SpellFFFD(a[2])) = SpellJS(SpellFFFD(b[2]))
+                   THEN <<"C09", "fffd-spelling+js-separator-spelling", rec.steps[i][1]>>
               ELSE <<"C09", IF a[1] = b[1] THEN "results-differ" ELSE "succeed-or-fail-differs", rec.steps[i][1], i>>
          ELSE IF rec.kind = "unmarshal" /\ ~rec.valid /\ ~rec.steps[2][2][1] THEN <<"C09", "target-touched-on-invalid-input">>
          ELSE <<>>
